@@ -93,6 +93,18 @@ def build_algebra(repo, p=0, q=0, r=0, signature=None, start_index=None, basis=N
     alg = Obj("Algebra", {"p": p, "q": q, "r": r, "signature": signature, "start_index": start_index,
                           "basis": list(basis or []), "graded": False, "pretty_blade": "e", "cse": True,
                           "wrapper": None, "codegen_symbolcls": None, "numspace": {}, "registry": {}})
+    # any other dataclass field gets its declared default (default= literal or default_factory of a builtin)
+    for st in repo.cls("algebra.Algebra").body:
+        if isinstance(st, ast.AnnAssign) and isinstance(st.target, ast.Name) and st.target.id not in alg.attrs \
+                and isinstance(st.value, ast.Call):
+            for kw in st.value.keywords:
+                if kw.arg == "default_factory" and un(kw.value) in ("dict", "list", "set", "tuple"):
+                    alg.attrs[st.target.id] = {"dict": dict, "list": list, "set": set, "tuple": tuple}[un(kw.value)]()
+                elif kw.arg == "default":
+                    try:
+                        alg.attrs[st.target.id] = ast.literal_eval(kw.value)
+                    except Exception:
+                        pass
     it.algebra = alg
     out = it.run("algebra.Algebra.__post_init__", [alg])
     if out[0] == "raise":
@@ -114,9 +126,10 @@ def symbolic_table(it, alg, pairs=None):
             table[k] = poly_of_value(v)
         return table, "eager", signs
     if isinstance(signs, Obj) and signs.kind == "DefaultKeyDict":
-        factory = signs.attrs.get("factory")
+        # read every sampled pair THROUGH the table object, in sequence on one object (as the library does), so that
+        # whatever the factory or __missing__ stores besides the requested entry is seen by later reads
         for key in pairs or []:
-            table[key] = poly_of_value(it.call(factory, [key], {}))
+            table[key] = poly_of_value(it.subscript(signs, key, None))
         return table, "lazy", signs
     raise NoValue(f"_prepare_signs returns {signs!r}")
 
@@ -204,8 +217,9 @@ def sign_table(ctx):
         check_table(ctx, repo, label, kwargs, f"algebra.Algebra._prepare_signs#{label}", fn)
 
 
-@rule("C01.lazy-eager", props=["C01"], min_instances=3, mutants=[
+@rule("C01.lazy-eager", props=["C01", "C09"], min_instances=3, mutants=[
     ("lazy table stores under a swapped key", ("algebra", "        res = self[key] = self.factory(key)", "        res = self[key[::-1]] = self.factory(key)")),
+    ("lazy fill also caches the mirrored entry with a grade-only sign", ("algebra", "            return sign\n\n        if self.d > 6:\n            return DefaultKeyDict(_compute_sign)", "            if not canon_pair_given:\n                signs[J, I] = sign * (-1) ** ((len(eI) - 1) * (len(eJ) - 1))\n            return sign\n\n        if self.d > 6:\n            signs = DefaultKeyDict(_compute_sign)\n            return signs")),
     ("lazy path uses a different spelling source", ("algebra", "                canon_pair = self.bin2canon[I], self.bin2canon[J]", "                canon_pair = self.bin2canon[J], self.bin2canon[I]")),
 ])
 def lazy_eager(ctx):
